@@ -145,14 +145,14 @@ Section Loop.
 
   Definition one (a : acc) (opv outv : cval) : acc :=
     match outv with
-    | L [out; stv; L allocs; L cots; after; I live; I nids] =>
+    | L [out; stv; L allocs; L cots; L pcots; after; I live; I nids] =>
       let spec_obs := a_spec a && negb (live =? 0)%Z in
       if a_live a then
         match dec opv with
         | Some o =>
           let w := a_w a in
           let al := map choice_of allocs in
-          let '(st', e', mout) := step (a_st a) (mkE w al (map dec_cot cots) (a_tr a)) o in
+          let '(st', e', mout) := step (a_st a) (mkE w al (map dec_cot cots) (map dec_cot pcots) (a_tr a)) o in
           let w1 := co_run (ew e') (dec_cot after) in
           let ag := cv_eqb mout out && cv_eqb (enc_state st') stv in
           let sp := (Z.of_nat (length (wh w1)) =? nids)%Z in
@@ -193,7 +193,7 @@ Definition wstep_enc (st : hwriter) (e : env) (o : wop) : hwriter * env * cval :
 Definition kstep_enc (st : hskip) (e : env) (o : kop) : hskip * env * cval :=
   let '(st', e', out) := k_step st e o in (st', e', enc_kout out).
 
-Definition env0 : env := mkE empty_world [] [] [].
+Definition env0 : env := mkE empty_world [] [] [] [].
 
 Definition check (c : cval) : verdict :=
   match c with
